@@ -234,6 +234,15 @@ def run(cr: CheckRun) -> None:
     sitems = [_script_from_acts(v) for v in sims if len(v) >= 2]
     campaign(cr, sitems, "simulate-schedules")
     cr.mark("simulate")
+    # schedules of the composed model Machine.tla: the timers expire by themselves, driven by the machine's cycle counter - also in
+    # the middle of a WAIT, during HALT idling, behind a handler that returns late - instead of being moved by the harness
+    from checks import c13
+    msims, res = vlib.sim_behaviours(SD, "MCMachine", "MCMachine_sim.cfg", 120 if quick else 2500, 40, cr.seed + 5, "C12m", var="acts")
+    if res.invariant_violated:
+        raise MachineryError(f"Machine model violates {res.invariant_violated} (simulate)")
+    mitems = [c13._script_from_machine_acts(v) for v in msims if len(v) >= 3]
+    campaign(cr, mitems, "machine-model-schedules")
+    cr.mark("machine-model")
     rnd = random.Random(cr.seed)
     ritems = [random_script(rnd, 40) for _ in range(400 if quick else 6000)]
     ritems += nesting_scripts()
